@@ -139,3 +139,18 @@ W size_t w_copyarray_str(const char* s, size_t n, char* guarded /* 6 chars, [1..
   char tmp[4]; size_t r = copyArray(doc.as<JsonVariantConst>(), tmp); for (int i = 0; i < 4; i++) guarded[1 + i] = tmp[i]; return r;
 }
 W unsigned w_copyarray_in(int32_t a, int32_t b, Hist* h) { arena.reset(); JsonDocument doc(&arena); int32_t src[2] = {a, b}; bool ok = copyArray(src, doc); observe_arr(doc, h); return ok; }
+// ---- bin / ext set through the API (C08): header construction, verbatim payload, read back
+W void w_bin(const unsigned char* p, size_t n, unsigned char* out, size_t cap, Ser* s, size_t* backn, unsigned char* back) {
+  arena.reset(); JsonDocument doc(&arena); doc.set(MsgPackBinary(p, n));
+  s->n = serializeMsgPack(doc, out, cap); s->measure = measureMsgPack(doc);
+  MsgPackBinary b = doc.as<MsgPackBinary>(); *backn = b.data() ? b.size() : size_t(-1);
+  if (b.data()) for (size_t i = 0; i < b.size() && i < 4; i++) back[i] = static_cast<const unsigned char*>(b.data())[i];
+}
+W void w_ext(int8_t type, const unsigned char* p, size_t n, unsigned char* out, size_t cap, Ser* s) {
+  arena.reset(); JsonDocument doc(&arena); doc.set(MsgPackExtension(type, p, n));
+  s->n = serializeMsgPack(doc, out, cap); s->measure = measureMsgPack(doc);
+}
+W void w_pretty_nested(int32_t i, const char* p, size_t n, char* outp, size_t capp, Ser* s) {   // [i,[ "s" ],[]]
+  arena.reset(); JsonDocument doc(&arena); doc.add(i); JsonArray a = doc.add<JsonArray>(); a.add(JsonString(p, n, JsonString::Copied)); doc.add<JsonArray>();
+  s->npretty = serializeJsonPretty(doc, outp, capp); s->mpretty = measureJsonPretty(doc); s->n = 0; s->measure = measureJson(doc);
+}
